@@ -220,6 +220,14 @@ DumpPenAlphabet(t) ==
   \cup {FS("Sgr", <<<<a, 0>>>>) : a \in {1, 2, 3, 4, 5, 7, 9}}
   \cup {F1("Print", 97), F0("Decsc"), F1("El", 0)}
 DumpPenSizes == {<<2, 1>>}
+(* dump() after the size changed: saved contexts (also the other screen's, set far out before a shrink), margins  *)
+(* and origin mode across a shrink, entering / leaving the alternate screen afterwards                           *)
+DumpResizeAlphabet(t) ==
+  {FS("Decset", <<1047>>), FS("Decrst", <<1047>>), F0("Decsc"), F2("Cup", t.rows, t.cols), F1("Print", 97),
+   F2("Decstbm", 2, t.rows), FS("Decset", <<6>>)}
+DumpResizeSizes == {<<3, 3>>}
+DumpResizeResizes(t) == {<<c, r>> \in {<<2, 3>>, <<3, 2>>, <<2, 2>>, <<4, 4>>} : <<c, r>> # <<t.cols, t.rows>>}
+DumpResizeFills == {<<>>, <<27, 91, 63, 49, 48, 52, 55, 104, 27, 91, 57, 57, 59, 57, 57, 72, 27, 55, 27, 91, 63, 49, 48, 52, 55, 108>>}   \* ?1047h CUP 99;99 DECSC ?1047l
 (* the histories that lead into the two known-finding classes *)
 DumpKnownAlphabet(t) ==
   {FS("Decset", <<6>>), F0("Decsc"), F0("Decrc"), F2("Decstbm", 2, t.rows), FS("Decset", <<1047>>), F1("Print", 97), F2("Cup", 1, 1)}
